@@ -6,6 +6,9 @@ EXTENDS Integers, Sequences, FiniteSets, TLC
 CONSTANTS Conns, Max, MaxShells,
           KF_CountAfterHandshake,  \* deviation: the slot is counted only after the SSH handshake, while the limit is checked
                                    \* at accept: a burst of Max+n connections that are all still handshaking is admitted
+          KF_RequestBurstLeak,     \* deviation (repaired): after an unknown channel request nobody reads the channel's request queue any
+                                   \* more; with enough further requests already on the wire the connection's mux blocks and never
+                                   \* notices the close - handleConnection() never returns, the slot is never given back
           KF_DecrementPerShell     \* deviation: the slot is given back by the goroutine a "shell" request starts - never for a
                                    \* connection without shell request, n times for n shell requests
 
@@ -37,11 +40,16 @@ ShellRequest(c) == /\ phase[c] = "authed" /\ shells[c] < MaxShells
 \* channels live on and the slot stays taken
 OtherChannel(c) == /\ phase[c] = "authed" /\ shells[c] < MaxShells
                    /\ UNCHANGED <<phase, shells, counter>> /\ H("otherchannel", c)
+\* a request the server does not serve (pty-req, env, exec, ... - what a stock ssh client sends first), possibly followed by
+\* more requests the client has already put on the wire: the server answers "no" and closes the whole connection
+UnknownRequest(c) == /\ phase[c] = "authed" /\ phase' = [phase EXCEPT ![c] = "closed"]
+                     /\ counter' = IF KF_RequestBurstLeak THEN counter ELSE IF KF_DecrementPerShell THEN counter - shells[c] ELSE counter - 1
+                     /\ UNCHANGED shells /\ H("badrequest", c)
 \* the connection ends (orderly or abruptly)
 Close(c) == /\ phase[c] = "authed" /\ phase' = [phase EXCEPT ![c] = "closed"]
             /\ counter' = IF KF_DecrementPerShell THEN counter - shells[c] ELSE counter - 1
             /\ UNCHANGED shells /\ H("close", c)
-Next == \E c \in Conns : Connect(c) \/ HandshakeOK(c) \/ HandshakeFail(c) \/ ShellRequest(c) \/ OtherChannel(c) \/ Close(c)
+Next == \E c \in Conns : Connect(c) \/ HandshakeOK(c) \/ HandshakeFail(c) \/ ShellRequest(c) \/ OtherChannel(c) \/ UnknownRequest(c) \/ Close(c)
 Spec == Init /\ [][Next]_vars
 viewNoHist == <<phase, shells, counter>>
 
